@@ -82,7 +82,7 @@ theorem foldl_failWaiter_pol (s : St) (l : List Waiter) (σ : BitVec 16) :
 theorem gather_nextMsg (s : Sender.St) (orc : Sender.Oracle) (sel : List Nat) : (Sender.gather s orc sel).1.nextMsg = s.nextMsg := by
   have := gather_closed s orc sel (fun _ _ _ => True) (fun _ => True)
     { mono := fun _ _ _ _ _ _ _ _ => trivial, acked := fun _ _ _ _ => trivial, miss := fun _ _ _ _ _ => trivial,
-      mark := fun _ _ _ _ _ _ => trivial, rtx := fun _ _ _ _ _ => trivial, fast := fun _ _ _ _ _ _ _ => trivial,
+      mark := fun _ _ _ _ _ _ => trivial, rtx := fun _ _ _ _ _ _ => trivial, fast := fun _ _ _ _ _ _ _ => trivial,
       fresh := fun _ _ _ _ _ => trivial }
     (fun _ _ => trivial) (fun _ _ => trivial)
   exact this.2.2.2.2.2.2.2
@@ -224,7 +224,7 @@ theorem timed_hyp (σ : BitVec 16) (L : BitVec 32) : RunHyp (KTimed σ L) (fun _
   qNew := fun _ _ _ _ _ _ _ _ _ => trivial
   qMarker := fun _ _ _ => trivial
 
-theorem frozen_hyp (m B : Nat) : RunHyp (Frozen m B) (fun c => c.msg ≠ m) (FrozenCtx m) (fun _ => True) where
+theorem frozen_hyp (m : Nat) (B : BitVec 32 → Nat) : RunHyp (Frozen m B) (fun c => c.msg ≠ m) (FrozenCtx m) (fun _ => True) where
   closed := fun s _ => Frozen_closed s.snd m B
   ctx := fun s op h _ => by
     obtain ⟨a1, _, a3⟩ := step_ctx s h.1 op 0
